@@ -48,7 +48,7 @@ def seqCall : String → Option (Call K)
   | "hll_update_mh_default" => some (.exported true .panic)
   | "load_sigs_bad_moltype" => some (.exported true .panic)
   | "ng_from_buffer_garbage" => some (.exported true .panic)
-  | "ok_add_hash" => some (.exported false (.ok ()))
+  | "ok_add_hash" => some (.exported true (.ok ()))
   | "ok_merge" => some (.exported true (.ok ()))
   | "ok_get_mins" => some (.exported true (.ok ()))
   | "ok_md5sum" => some (.exported true (.ok ()))
@@ -56,8 +56,8 @@ def seqCall : String → Option (Call K)
   | "ok_add_seq_force" => some (.exported true (.ok ()))
   | "ok_is_compatible_false" => some (.exported false (.ok ()))
   | "ok_isect_union_mismatch" => some (.exported true (.ok ()))
-  | "ok_hll_cardinality" => some (.exported false (.ok ()))
-  | "ok_ng_count" => some (.exported false (.ok ()))
+  | "ok_hll_cardinality" => some (.exported true (.ok ()))
+  | "ok_ng_count" => some (.exported true (.ok ()))
   | "ok_sig_json" => some (.exported true (.ok ()))
   | "ok_str_from_cstr" => some (.exported true (.ok ()))
   | _ => none
@@ -114,7 +114,6 @@ def bodyOutcome (f cls : String) : Out :=
     if isIn ["compat", "empty"] then e .NeedsAbundanceTracking
     else if cls == "abund_overflow" then .panic else errOr (mismatchKind cls)
   -- Nodegraph
-  | "nodegraph_with_tables" => if cls == "size0" then .panic else .ok ()
   | "nodegraph_count" | "nodegraph_get" | "nodegraph_matches" | "nodegraph_update_mh" =>
     if cls == "zero_len_table" then .panic else .ok ()
   | "nodegraph_count_kmer" | "nodegraph_get_kmer" => if cls == "valid" then .ok () else .panic
